@@ -140,6 +140,9 @@ def c10_r1(ctx):
     # write order: length, info, data  <->  read_int, read_pickle, then data at tell()
     wcalls = [c for c in norm.calls_in(wb.node) if norm.canon(norm.receiver(c) or ast.Name(id=""), norm.aliases(wb.node)) == "self._postfile"
               and norm.call_name(c).startswith("write") and "MAGIC" not in norm.canon(c)]
+    # `write_int(-n if last else n)` may be spelled as two calls on the two sides of an `if`: the length is still written once
+    if len(wcalls) == 4 and norm.call_name(wcalls[0]) == "write_int" and norm.call_name(wcalls[1]) == "write_int":
+        wcalls = wcalls[1:]
     info_ok = any(WA.eq(st, "infobytes = dumps(ANY, 2)") for st in wsts
                   if isinstance(st, ast.Assign) and isinstance(st.value, ast.Call) and st.value.args and st.value.args[0] is wdump_arg)
     ok = len(wcalls) == 3 and info_ok and WA.has(wsts, "blocklength = len(infobytes) + len(databytes)") and \
